@@ -6,6 +6,8 @@ CONSTANTS
   EntriesAt <- MCEntriesAt
   OffsetsOf <- MCOffsetsOf
   AddrClass <- MCAddrClass
+  UnitsOf <- MCUnitsOf
+  MagsOf <- MCMagsOf
   Defects = {}
   Log <- LogLast
 INVARIANTS Inv_C47_AcceptedOnlyIfRequired
